@@ -33,6 +33,13 @@ TECH = {
 }
 
 
+ENGINE = {"C01": "scheduler-rig", "C02": "direct-drive", "C03": "scheduler-rig",
+          "C04": "scheduler-rig", "C05": "scheduler-rig", "C06": "scheduler-rig",
+          "C07": "scheduler-rig", "C08": "crash-enumerator", "C09": "scheduler-rig",
+          "C11": "scheduler-rig", "C12": "stub-md-programs",
+          "C13": "cut-point-driver", "C14": "scheduler-rig", "C17": "scheduler-rig"}
+
+
 def main():
     props = [json.loads(l) for l in open(os.path.join(HERE, "properties.jsonl"))]
     man = {
@@ -46,7 +53,13 @@ def main():
             "add_only": True,
         },
         "engines": [
-            {"name": "scheduler-rig", "path": "vf/rig_sched.py", "serves_properties": ["C01", "C02", "C03", "C04", "C05", "C06", "C07", "C14", "C17"], "kind_free_text": "real scheduler()/REPEX_state in-process with a completion-order adversary and monitors"},
+            {"name": "scheduler-rig", "path": "vf/rig_sched.py", "serves_properties": ["C01", "C02", "C03", "C04", "C05", "C06", "C07", "C09", "C11", "C14", "C17", "C18"], "kind_free_text": "real scheduler()/REPEX_state in-process with a completion-order adversary, kills at and inside steps, restarts, and monitors (vf/monitors.py)"},
+            {"name": "exhaustive-explorer", "path": "vf/rig_explore.py", "serves_properties": ["C02", "C03", "C05"], "kind_free_text": "snapshot/restore exploration of the real REPEX_state to a fixed point over abstract states (small systems)"},
+            {"name": "crash-enumerator", "path": "vf/fsfault.py", "serves_properties": ["C08"], "kind_free_text": "sys.addaudithook effect recorder; crash state = copy of the tree before each effect; torn files; post-crash probe vf/crash_probe.py"},
+            {"name": "stub-md-programs", "path": "vf/stubs", "serves_properties": ["C07", "C12"], "kind_free_text": "fake lmp/cp2k/gmx executables with data-driven write schedules, baton-controlled from the engines' own sleep points (vf/baton.py)"},
+            {"name": "cut-point-driver", "path": "vf/checks/c13.py", "serves_properties": ["C13"], "kind_free_text": "grows files along byte cut schedules and polls the real on-the-fly readers"},
+            {"name": "runner-stress", "path": "vf/runner_stress.py", "serves_properties": ["C17"], "kind_free_text": "real aiorunner + forked pool in a host process, exactly-once log"},
+            {"name": "direct-drive", "path": "vf/checks", "serves_properties": ["C02", "C09", "C10", "C11", "C14", "C15", "C16", "C18", "C19", "C20"], "kind_free_text": "generated inputs into the real functions with independent reference oracles (vf/oracles)"},
         ],
         "checks": [],
         "not_applicable": [],
@@ -65,7 +78,7 @@ def main():
             "thorough_cmd": f"./check {pid} --tier thorough",
             "evidence_file": f"evidence/{pid}.json",
             "replay_cmd_template": f"./check {pid} --replay {{path}}",
-            "engine": "runtime-monitoring",
+            "engine": ENGINE.get(pid, "direct-drive"),
             "level_claimed": {
                 "category": mod.LEVEL,
                 "text": getattr(mod, "LEVEL_TEXT", "held on the executions explored: " + mod.RULE)[:1500],
